@@ -18,6 +18,10 @@ func runStream(name string, args []string) {
 		streamGhost(o)
 	case "ht":
 		streamHt(o)
+	case "http":
+		streamHTTP(o)
+	case "trie":
+		streamTrie(o)
 	case "cache":
 		streamCache(o, o.focus)
 	default:
